@@ -45,7 +45,13 @@ func regionName(fn *ssa.Function, reg int) string {
 }
 
 func objName(fn *ssa.Function, o Obj) string {
+	if o.Region == regGlobal && o.Path != "" {
+		return "global:" + o.Path
+	}
 	if o.Region == regSite {
+		if o.Site.Parent() == nil {
+			return "fresh"
+		}
 		return "fresh:" + o.Site.Name() + "@" + o.Site.Parent().Name()
 	}
 	n := regionName(fn, o.Region)
@@ -79,15 +85,26 @@ func witnessTail(w *Witness) (storeFn, siteFn string) {
 // runFrames checks every frame contract tagged with the property.
 func (ctx *checkCtx) runFrames() *JobResult {
 	var specs []*FrameSpec
+	skipped := 0
 	for _, f := range ctx.cs.Frames {
 		if hasProp(f.Props, ctx.prop) {
+			if f.Thorough && ctx.tier != "thorough" {
+				skipped++
+				continue
+			}
 			specs = append(specs, f)
 		}
+	}
+	if skipped > 0 && len(specs) == 0 {
+		return &JobResult{Notes: []string{fmt.Sprintf("%d frame contract(s) of %s are checked in the thorough tier only (whole-package effect summaries take minutes)", skipped, ctx.prop)}}
 	}
 	if len(specs) == 0 {
 		return nil
 	}
 	jr := &JobResult{}
+	if skipped > 0 {
+		jr.Notes = append(jr.Notes, fmt.Sprintf("%d frame contract(s) of %s are checked in the thorough tier only", skipped, ctx.prop))
+	}
 	fa := NewFrameAnalysis(ctx.ld)
 	for _, spec := range specs {
 		fn := ctx.ld.Funcs[spec.Key]
@@ -101,7 +118,9 @@ func (ctx *checkCtx) runFrames() *JobResult {
 			var collect func(f *ssa.Function)
 			collect = func(f *ssa.Function) {
 				for _, a := range f.AnonFuncs {
-					fns = append(fns, a)
+					if spawnedClosure(a) {
+						fns = append(fns, a)
+					}
 					collect(a)
 				}
 			}
@@ -180,6 +199,11 @@ func (ctx *checkCtx) checkFrame(jr *JobResult, fa *FrameAnalysis, spec *FrameSpe
 		allowed := matchField(spec.Allows, ctx.cs.FieldGroups, x.k.Field)
 		if len(spec.Denies) > 0 && !matchField(spec.Denies, ctx.cs.FieldGroups, x.k.Field) {
 			allowed = true
+		}
+		if spec.NoGlobals && x.k.Obj.Region == regGlobal {
+			// no process-wide state: nothing reachable from a package-level variable may be
+			// written, except under the variables the contract names
+			allowed = x.k.Obj.Path != "" && matchField(spec.AllowGlobals, ctx.cs.FieldGroups, x.k.Obj.Path)
 		}
 		if strings.HasPrefix(x.k.Field, "global:") && spec.NoGlobals && !allowed {
 			allowed = false
@@ -266,4 +290,38 @@ func (ctx *checkCtx) checkFrame(jr *JobResult, fa *FrameAnalysis, spec *FrameSpe
 		}
 	}
 	jr.Samples = append(jr.Samples, map[string]interface{}{"frame_summary_of": key, "writes": len(sum.Writes), "links": len(sum.Links), "result": sum.Ret.String()})
+}
+
+// spawnedClosure: the closure runs concurrently with its creator: it is the
+// function of a `go` statement or is handed to util.WorkerPool (or is nested
+// in such a closure).
+func spawnedClosure(fn *ssa.Function) bool {
+	parent := fn.Parent()
+	if parent == nil {
+		return false
+	}
+	for _, b := range parent.Blocks {
+		for _, in := range b.Instrs {
+			mc, ok := in.(*ssa.MakeClosure)
+			if !ok || mc.Fn != fn {
+				continue
+			}
+			for _, r := range *mc.Referrers() {
+				switch u := r.(type) {
+				case *ssa.Go:
+					if u.Call.Value == mc {
+						return true
+					}
+				case *ssa.Call:
+					if callee, ok := u.Call.Value.(*ssa.Function); ok && callee.Name() == "WorkerPool" {
+						return true
+					}
+				}
+			}
+		}
+	}
+	if parent.Parent() != nil && spawnedClosure(parent) {
+		return true
+	}
+	return false
 }
